@@ -57,6 +57,9 @@ func Txs(t *rapid.T, n int, maxPages uint32) []pager.Tx {
 				Ver:  uint32(rapid.IntRange(1, 1<<20).Draw(t, "ver")),
 			})
 		}
+		if tx.NewSize > cur+2 && rapid.IntRange(0, 3).Draw(t, "holes?") == 0 {
+			tx.Holes = rapid.IntRange(1, 3).Draw(t, "holes")
+		}
 		if rapid.IntRange(0, 3).Draw(t, "spill?") == 0 {
 			tx.SpillAfter = rapid.IntRange(1, 6).Draw(t, "spill")
 		}
